@@ -120,7 +120,8 @@ class BlockChain(object):
             )
         old_chain_finder = self.chain_finder
         self.chain_finder = ChainFinder()
-        self._longest_chain_cache = None
+        # the rest of the reported chain is still a heaviest chain from the new anchor
+        self._longest_chain_cache = longest_chain[: len(longest_chain) - index]
 
         def iterate() -> Generator[tuple[Any, Any], None, None]:
             for tree in old_chain_finder.trees_from_bottom.values():
